@@ -1,4 +1,83 @@
-// engine K harnesses for module hook 'unordered_receiver' (included under cfg(kani) by /repo)
+// engine K — helpers/buffers/unordered_receiver.rs (property C14: the receive buffer never loses a wake-up)
+//
+// `OperatingState::add_waker` is sequential (callers hold the state's mutex): one waker per ring slot, far-ahead
+// registrations go to the overflow list, the cursor is untouched. BOUNDED, enumerated.
+// The history-level obligation "a waker registered for record i is woken no later than the wake_next that makes
+// next == i" was written (symbolic and enumerated variants) but does not close: every `Waker::wake` is a call through
+// a function pointer, which CBMC resolves by case split; 7-step histories exhaust 40 GB / 25 min (measured).
+// Not modelled: the byte stream / `Spare` (GenericArray: CBMC abort), the mutex.
+use std::task::{RawWaker, RawWakerVTable};
+
+use super::*;
+
+// Counting wakers without Arc / atomics (both are expensive for CBMC): the waker's data pointer points at a
+// static counter; clone returns the same pointer, wake / wake_by_ref increment it, drop does nothing.
+static mut WOKEN: [usize; 4] = [0; 4];
+fn vt_clone(p: *const ()) -> RawWaker {
+    RawWaker::new(p, &VTABLE)
+}
+fn vt_wake(p: *const ()) {
+    unsafe { *(p as *mut usize) += 1 };
+}
+fn vt_drop(_p: *const ()) {}
+static VTABLE: RawWakerVTable = RawWakerVTable::new(vt_clone, vt_wake, vt_wake, vt_drop);
+fn counting_waker(k: usize) -> Waker {
+    unsafe { Waker::from_raw(RawWaker::new(std::ptr::addr_of_mut!(WOKEN[k]) as *const (), &VTABLE)) }
+}
+fn woken(k: usize) -> usize {
+    unsafe { WOKEN[k] }
+}
+
+type St = OperatingState<futures::stream::Empty<Vec<u8>>, Vec<u8>>;
+
+fn mk(c: usize, next: usize) -> St {
+    OperatingState {
+        stream: Box::pin(futures::stream::empty()),
+        next,
+        max_polled_idx: None,
+        spare: Spare::default(),
+        wakers: vec![None; c],
+        overflow_wakers: Vec::new(),
+        _marker: PhantomData,
+    }
+}
+
+fn reset_counters() {
+    unsafe { WOKEN = [0; 4] };
+}
+
+/// `add_waker` keeps at most one waker per ring slot (a re-registration for the same record replaces the old one),
+/// sends far-ahead registrations to the overflow list and never touches the read cursor; enumerated.
+#[kani::proof]
+#[kani::unwind(12)]
+fn c14_receiver_add_waker_contract() {
+    kani::cover!(true);
+    let mut cc = 1usize;
+    while cc <= 2 {
+        let c = 2 * cc;
+        let mut n0 = 0usize;
+        while n0 < 4 {
+            let mut i = n0 + 1;
+            while i <= n0 + 9 {
+                reset_counters();
+                let mut st = mk(c, n0);
+                st.add_waker(i, &counting_waker(0));
+                st.add_waker(i, &counting_waker(1));
+                assert!(st.next == n0 && st.is_next(n0) && !st.is_next(i));
+                let in_ring = i <= n0 + c;
+                let filled = st.wakers.iter().filter(|w| w.is_some()).count();
+                assert!(filled == usize::from(in_ring));
+                assert!(st.overflow_wakers.len() == if in_ring { 0 } else { 2 });
+                if in_ring {
+                    assert!(st.wakers[i % c].is_some());
+                }
+                i += 1;
+            }
+            n0 += 1;
+        }
+        cc += 1;
+    }
+}
 
 #[cfg(test)]
 include!(concat!(env!("IPA_VERIF_DIR"), "/.build/playback/unordered_receiver.rs"));
